@@ -120,6 +120,21 @@ fn main() {
                 }
             }
         }
+        "parse" => {
+            // compile_fs parse <dir> <file with one iso literal text>: exit 1 iff the REAL
+            // isograph_lang_parser::parse_iso_literal panics (C07: parsing is total)
+            let text = fs::read_to_string(std::env::args().nth(3).expect("literal file")).unwrap();
+            let rel: common_lang_types::RelativePathToSourceFile = "src/a.ts".intern().into();
+            let ts = common_lang_types::TextSource { relative_path_to_source_file: rel, span: None };
+            let r = std::panic::catch_unwind(|| {
+                isograph_lang_parser::parse_iso_literal(text.clone(), rel, None, ts).map(|_| ()).map_err(|d| d.0.message.clone())
+            });
+            match r {
+                Ok(Ok(())) => println!("parsed"),
+                Ok(Err(m)) => println!("diagnostic: {m}"),
+                Err(_) => { println!("PANIC: parse_iso_literal panicked on this input"); std::process::exit(1); }
+            }
+        }
         _ => { eprintln!("usage: compile_fs root_only|interrupted [dir]"); std::process::exit(2); }
     }
 }
